@@ -71,9 +71,10 @@ var props = []propCfg{
 			{Name: "TestDict", Rapid: true, Quick: 8000, Thorough: 400000, ShardsQ: 4, ShardsT: 8},
 			{Name: "TestStrings", Rapid: true, Quick: 16000, Thorough: 800000, ShardsQ: 4, ShardsT: 8},
 			{Name: "TestBuf", Rapid: true, Quick: 4000, Thorough: 100000, ShardsQ: 2, ShardsT: 4},
+			{Name: "TestBufs", Rapid: true, Quick: 4000, Thorough: 100000, ShardsQ: 2, ShardsT: 4},
 			{Name: "TestFrt", Rapid: true, Quick: 24000, Thorough: 1200000, ShardsQ: 6, ShardsT: 12},
 		},
-		Rule:      "four rapid properties. dict: histories of Add/TryFind/ContainsKey/Item/Keys/Values/KVs/ToDict over a small key alphabet (string and int keys) against a Go map model, enumerations compared as multisets after every step; strings: every wrapper against the Go strings function with the pipeline argument order written out in the oracle, arguments built so that affixes/separators occur at the ends and repeatedly; buf: write sequences with interleaved reads; frt: Pipe/PipeUnit/IfElse/IfElseUnit/IfOnly with call counters, tuple round trips, Sprintf1/2 vs fmt (each verb alone and inside literal text with %% before and after it), Printf1 / Println with stdout captured through a pipe (formats with %%, arguments containing %), SInterP over every integer kind, floats, strings, named types, structs, slices, nil. Non-trivial = dict history with an overwrite and an absent-key lookup | string case whose two string arguments differ | buf case with >= 2 writes | formatting case of unsigned or float kind, or any control-helper case; distinct = hash of the concrete case.",
+		Rule:      "four rapid properties. dict: histories of Add/TryFind/ContainsKey/Item/Keys/Values/KVs/ToDict over a small key alphabet (string and int keys) against a Go map model, enumerations compared as multisets after every step; strings: every wrapper against the Go strings function with the pipeline argument order written out in the oracle, arguments built so that affixes/separators occur at the ends and repeatedly; buf: write sequences with interleaved reads, and histories over several buffers (new / write / read on any of them, a buffer created right after another one was read) against one string model per buffer; frt: Pipe/PipeUnit/IfElse/IfElseUnit/IfOnly with call counters, tuple round trips, Sprintf1/2 vs fmt (each verb alone and inside literal text with %% before and after it), Printf1 / Println with stdout captured through a pipe (formats with %%, arguments containing %), SInterP over every integer kind, floats, strings, named types, structs, slices, nil. Non-trivial = dict history with an overwrite and an absent-key lookup | string case whose two string arguments differ | buf case with >= 2 writes | formatting case of unsigned or float kind, or any control-helper case; distinct = hash of the concrete case.",
 		Technique: "property-based testing (rapid): model-based state machine for dict, differential against the Go standard library for strings/fmt, counters for the control helpers",
 		Assumptions: []string{
 			"floats only have to render as text that parses back to the value within 1e-6 relative tolerance (the statement promises 'without failing', not a format)",
